@@ -63,7 +63,7 @@ impl PosOracle for C04 {
 pub const RULE: &str = "states = all valid 3-man positions (complete), the reachable closure (fixpoint, no depth bound) of KRK (quick) plus KQK and KPK-with-promotions (thorough), the bounded trees below the curated roots (mate-in-one / stalemate-in-one neighbourhoods included), the en-passant / castling / promotion families with children, complete 4-man sets (thorough); each judged: status() against (reference in-check, reference has-a-legal-move); Game::result() on every terminal and every initial state. distinct_nontrivial = judged states that are checkmate, stalemate, in check, or have exactly one legal move";
 
 pub fn run(tier: Tier) -> i32 {
-    let mut plan = standard_plan(tier, 2);
+    let mut plan = standard_plan(tier, 1);
     if tier == Tier::Quick {
         plan.families.push((Box::new(EpFamily { extra: Extra::EnemySlider, pre_push: false }), 0));
     }
